@@ -562,6 +562,8 @@ def match_known(prop, v, known):
 
 def write_replay(prop, kind, data):
     os.makedirs(os.path.join(VERIF, 'replays'), exist_ok=True)
+    data = dict(data)
+    data.setdefault('hashseed', int(os.environ.get('PYTHONHASHSEED', '0') or 0))
     h = hashlib.sha1(json.dumps(data, sort_keys=True, default=str).encode()).hexdigest()[:10]
     p = os.path.join(VERIF, 'replays', f'{prop}-{kind}-{h}.json')
     with open(p, 'w') as f:
